@@ -24,6 +24,20 @@ var profile = gen.Profile{
 
 func genCase(t *rapid.T) sim.Scenario { return gen.ServerScenario(t, profile) }
 
+// lowLimit: the last clause of C03 says "up to the concurrency limit", so
+// histories are also run close to a small limit: notifications and calls whose
+// handlers fail, return bad values or are cancelled, then a call that stays
+// parked, then later requests.
+var lowLimit = gen.Profile{
+	MinSteps: 6, MaxSteps: 28, Limits: []int{2, 3, 4},
+	PNote: 40, PGate: 55, PInvalid: 6, PUnknown: 6, PBatch: 35, MaxBatch: 3,
+	PCancel: 5, PBurst: 30, PObey: 30, Builtins: false, Pins: true, PRelease: 45,
+	Outcomes: []string{"ok", "err:-32000", "err:7", "ctxerr", "bad", "baderr"},
+	Chans:    []string{"direct", "pipe"},
+}
+
+func genLow(t *rapid.T) sim.Scenario { return gen.ServerScenario(t, lowLimit) }
+
 func run(t *testing.T, sc sim.Scenario) engine.Verdict {
 	return oracle.RunServer(t, sc, []string{"C03/"}, func(f oracle.Facts) bool {
 		return f.BarrierExercised
@@ -33,6 +47,11 @@ func run(t *testing.T, sc sim.Scenario) engine.Verdict {
 var parts = []engine.AnyPart{
 	engine.Part[sim.Scenario]{Name: "scenarios", Run: run, Gen: genCase,
 		Rule: "rapid-generated scripts biased to notifications with parked handlers followed by further records (calls, notifications, batches) while they are parked, with concurrent CancelRequest, a concurrency limit far above the load (the limit itself is the subject of C06), hook delays on barrier/dispatch/invoke sites; safety (exit(notification) < enter(later request)) is checked on the logical clock of the handler log, bounded liveness (all requests of the oldest undispatched record start once no earlier notification is unfinished and a slot is free; a parked call does not hold back later records) at every quiescent point; non-trivial = a notification was parked at a moment when a later record had already been received; distinct = hash of the scenario"},
+}
+
+func init() {
+	parts = append(parts, engine.Part[sim.Scenario]{Name: "lowlimit", Run: run, Gen: genLow,
+		Rule: "as scenarios, but with Concurrency 2-4 and handlers (of notifications too) that fail, return unmarshalable values or are cancelled before a call stays parked and further requests arrive: below the limit a request of a started record must begin although earlier calls are still running; non-trivial = a notification was parked at a moment when a later record had already been received; distinct = hash of the scenario"})
 }
 
 func TestProp(t *testing.T)   { engine.RunParts(t, "C03", parts) }
